@@ -336,6 +336,16 @@ def main(ctx):
                         ws = ["sfile.write", "Recfile.write"]
                     for w in ws:
                         units.append((descr, nrows, delim, voff, w, "all"))
+    # every string symbol in the FIRST cell of the table (row 0, column 0 - where the data section starts) and, through
+    # the cycling, in every other position: all value offsets for tables that begin with a string field, all delimiters
+    for sk in ("S1", "S3", "S12"):
+        for descr in ([fdesc(sk, None, "<", "s")], [fdesc(sk, None, "<", "s"), fdesc("i4", None, "<", "n")],
+                      [fdesc(sk, None, "<", "s"), fdesc("f8", (3,), ">", "x")], [fdesc(sk, (3,), "<", "s"), fdesc("u1", None, "<", "n")]):
+            for nrows in (1, 3):
+                for delim in DELIMS:
+                    for voff in range(11):
+                        units.append((descr, nrows, delim, voff, "sfile.write", "all"))
+
     # memory layouts of the input (strided / reversed / offset views, read-only)
     for ti, descr in enumerate(tables[:n1:4] + tables[n1:n1 + 6]):
         for nrows in (2, 3):
